@@ -473,6 +473,24 @@ theorem setUnits_good (i : Info) (f : Frame) (m : List (Str × Str)) (hg : Good 
         exact ⟨by simp only; rw [hk]; exact hc.nodup, by
           intro f0 hf0 he; simp only at hf0 ⊢; rw [hk]; exact hc.keysOk f0 hf0 he⟩
 
+theorem setColFmt_good (i : Info) (f : Frame) (n : Str) (fm : Option Str) (hg : Good i) :
+    Good (setColFmt i f n fm).1 := by
+  unfold setColFmt
+  have hc := checkDataframe_good i f hg
+  cases h : checkDataframe i f with
+  | mk i1 e =>
+    rw [h] at hc
+    cases e with
+    | some e => simpa using hc
+    | none =>
+      simp only
+      cases hget : get i1.reg n with
+      | none => simpa using hc
+      | some m =>
+        have hk := keys_set_mem i1.reg n { m with fmt := fm } (get_some_mem i1.reg n m hget)
+        exact ⟨by simp only; rw [hk]; exact hc.nodup, by
+          intro f0 hf0 he; simp only at hf0 ⊢; rw [hk]; exact hc.keysOk f0 hf0 he⟩
+
 theorem addColumnCore_good (i : Info) (f : Frame) (n : Str) (u du fm : Option Str) (hg : Good i) :
     Good (addColumnCore i f n u du fm).1 := by
   have base : Good { i with last := none } := ⟨hg.nodup, by intro f0 hf0; simp at hf0⟩
@@ -605,6 +623,7 @@ theorem step_good (t : Tbl) (op : Op) (hg : Good t.info) : Good (step t op).1.in
   | addColumn n u du fm f => simpa [step] using addColumn_good t.info f n u du fm hg
   | setUnits m => simpa [step] using setUnits_good t.info t.frame m hg
   | setAllUnits us => simpa [step, setAllUnits] using setUnits_good t.info t.frame _ hg
+  | setFmt n fm => simpa [step] using setColFmt_good t.info t.frame n fm hg
   | setColUnit n u =>
     by_cases hc : n ∈ t.frame.names
     · by_cases hd : dupLabel t.frame n = true
